@@ -655,7 +655,7 @@ def knn_filter(points:torch.Tensor, k:int, pdim:int=None, radius:float=None, ord
     if radius is not None:
         count = torch.sum(dist <= radius, dim=-1) - 1
         rmask = count >= k
-        points, dist = points[rmask], dist[rmask]
+        points, dist = points[rmask], dist[rmask][:, rmask]
 
     _, idx = dist.topk(k+1, dim=-1, largest=False, sorted=True)
     shape = points.size() + torch.Size([k+1])
